@@ -1,5 +1,5 @@
 # sourced by every script: offline Go toolchain = the repo's own go1.24.2 from the module cache
 export GOMODCACHE_DIR="${GOMODCACHE_DIR:-/root/go/pkg/mod}"
 export PATH="$GOMODCACHE_DIR/golang.org/toolchain@v0.0.1-go1.24.2.linux-amd64/bin:$PATH"
-export GOTOOLCHAIN=local GOFLAGS=-mod=mod GOPROXY=off GONOSUMDB='*' GONOSUMCHECK=1 GOFLAGS=-mod=mod
+export GOTOOLCHAIN=local GOFLAGS=-mod=readonly GOPROXY=off GONOSUMDB="*" GONOSUMCHECK=1
 export CGO_ENABLED=0
